@@ -46,8 +46,10 @@ pub struct CoseSignature {
 
 impl crate::CborSerializable for CoseSignature {}
 
-impl AsCborValue for CoseSignature {
-    fn from_cbor_value(value: Value) -> Result<Self> {
+impl CoseSignature {
+    /// Conversion from a [`Value`], with `depth` further levels of nested signatures allowed inside
+    /// this signature's headers.
+    pub(crate) fn from_cbor_value_depth(value: Value, depth: usize) -> Result<Self> {
         let mut a = value.try_as_array()?;
         if a.len() != 3 {
             return Err(CoseError::UnexpectedItem("array", "array with 3 items"));
@@ -56,9 +58,15 @@ impl AsCborValue for CoseSignature {
         // Remove array elements in reverse order to avoid shifts.
         Ok(Self {
             signature: a.remove(2).try_as_bytes()?,
-            unprotected: Header::from_cbor_value(a.remove(1))?,
-            protected: ProtectedHeader::from_cbor_bstr(a.remove(0))?,
+            unprotected: Header::from_cbor_value_depth(a.remove(1), depth)?,
+            protected: ProtectedHeader::from_cbor_bstr_depth(a.remove(0), depth)?,
         })
+    }
+}
+
+impl AsCborValue for CoseSignature {
+    fn from_cbor_value(value: Value) -> Result<Self> {
+        Self::from_cbor_value_depth(value, crate::header::MAX_SIGNATURE_NESTING)
     }
 
     fn to_cbor_value(self) -> Result<Value> {
